@@ -172,9 +172,13 @@ def construct(ev, cv, args, kw, node):
     # an abstract class-valued parameter: its constructor contract is registered under the static class name
     c = ev.reg.contracts.get(C + ".__init__")
     if c is not None and not c.inline:
-        ev.it.apply_contract(c, C + ".__init__", bound, ev, node)
+        ev.it.apply_contract(c, C + ".__init__", bound, ev, node, fresh_self=True)
     else:
-        ev.it.call_function(K, init, bound, ev, node)
+        c2 = ev.reg.contracts.get(K + ".__init__")
+        if c2 is not None and not c2.inline:
+            ev.it.apply_contract(c2, K + ".__init__", bound, ev, node, fresh_self=True)
+        else:
+            ev.it.call_function(K, init, bound, ev, node)
     return obj
 
 
